@@ -63,9 +63,9 @@ macro "c10_good" : tactic => `(tactic| (
     first
     | (have h3 : ¬ sr = 0 := by omega
        simp [aiffHeader, wavFmtChunkOk, wavexFmtChunkOk, auEncodingOk, w64HeaderOk, isAlac, pcmInit, bytewidthOf, res, Init.good, Init.fail,
-         float32Init, double64Init, g72xInit, nmsInit, gsm610Init, dwvwInit, voxInit, dpcmInit, imaInit, h0, h1, h2, h3])
+         float32Init, double64Init, g72xInit, nmsInit, gsm610Init, dwvwInit, alacInit, voxInit, dpcmInit, imaInit, h0, h1, h2, h3])
     | simp [aiffHeader, wavFmtChunkOk, wavexFmtChunkOk, auEncodingOk, w64HeaderOk, isAlac, pcmInit, bytewidthOf, res, Init.good, Init.fail,
-         float32Init, double64Init, g72xInit, nmsInit, gsm610Init, dwvwInit, voxInit, dpcmInit, imaInit, h0, h1, h2]
+         float32Init, double64Init, g72xInit, nmsInit, gsm610Init, dwvwInit, alacInit, voxInit, dpcmInit, imaInit, h0, h1, h2]
     simp [GoodRes, validateSfinfo, validatePsf, hc0, h1, h2, *])
   all_goals (try omega)
   all_goals (
@@ -76,6 +76,9 @@ macro "c10_good" : tactic => `(tactic| (
     | (have h4 : ¬ 2 < ch := by omega
        have h5 : ch = 1 ∨ ch = 2 := by omega
        simp [h4, h5, GoodRes, validateSfinfo, validatePsf, hc0, h0, h1, h2, *]
+       try omega)
+    | (have h7 : ¬ 8 < ch := by omega
+       simp [alacInit, Init.good, Init.fail, res, h7, GoodRes, validateSfinfo, validatePsf, hc0, h0, h1, h2, *]
        try omega)
     | (have h6 : ch = 1 := by omega
        simp [h6, GoodRes, validateSfinfo, validatePsf, hc0, *]
